@@ -144,8 +144,10 @@ func (e *Engine) LoadContracts() error {
 			return err
 		}
 		for _, fc := range cf.Funcs {
-			if !fc.Trusted && fc.Opts["looponly"] == "" {
-				return fmt.Errorf("%s:%d: contracts in specs/ must be trusted", f, fc.Line)
+			// contracts in specs/ are trusted, loop-only (for inlining), or - for library packages whose
+			// source is loaded from GOROOT - verified like any other function ("opt verify-lib")
+			if !fc.Trusted && fc.Opts["looponly"] == "" && fc.Opts["verify-lib"] == "" {
+				return fmt.Errorf("%s:%d: contracts in specs/ must be trusted, looponly or verify-lib", f, fc.Line)
 			}
 		}
 		if err := e.register(cf); err != nil {
@@ -407,6 +409,7 @@ func (e *Engine) findFunc(fc *FuncContract) (*ssa.Function, error) {
 	if sp == nil {
 		return nil, fmt.Errorf("no ssa package for %s", fc.Pkg)
 	}
+	sp.Build() // dependencies are built on demand (no-op when already built)
 	if fc.Recv == "" {
 		fn := sp.Func(fc.Name)
 		if fn == nil {
@@ -447,6 +450,7 @@ type FuncResult struct {
 	VC        *VC
 	Err       error
 	Undecided string
+	Bounded   []string
 	SrcHash   string
 	Pos       token.Position
 }
@@ -546,6 +550,7 @@ func (e *Engine) VerifyFunc(fc *FuncContract) *FuncResult {
 	// vacuity: precondition satisfiable
 	vc.obls = append(vc.obls, &Obligation{Name: "cover/requires", Kind: "cover", Goal: TFalse, TraceLen: len(vc.trace), Pos: res.Pos, ExpectSat: true, Text: "precondition is satisfiable", Func: fc.Key(), Claimed: true})
 	out, rv, err := x.execFunc(fn, args, nil, st, "", 0)
+	res.Bounded = x.bounded
 	if err != nil {
 		if u, ok := err.(*Unsupported); ok {
 			res.Undecided = u.Msg
